@@ -28,6 +28,9 @@ def model_state(o):
     return st
 
 
+BOOST = int(os.environ.get("VERIF_BOOST", "1"))
+
+
 def run(rng, tier, res=None):
     load_opfython()
     import opfython.math.distance as dist
@@ -37,7 +40,7 @@ def run(rng, tier, res=None):
     from opfython.models.unsupervised import UnsupervisedOPF
     res = res or Result("persist")
     names = sorted(dist.DISTANCES)
-    ncases = 28 if tier == "quick" else 4 * len(names)
+    ncases = (28 * BOOST) if tier == "quick" else 4 * len(names)
     tmp = tempfile.mkdtemp(prefix="opfverif-persist-")
 
     def viol(msgs, meta):
